@@ -82,3 +82,12 @@ for path, per in paths.items():
     outp[path] = {"*": vals[0], "in": sorted(per)} if all(v == vals[0] for v in vals) else per
 json.dump(outp, open(os.path.join(os.path.dirname(os.path.abspath(__file__)), "sa", "ref_paths.json"), "w"), indent=0, sort_keys=True)
 print(len(outp), "branching effect-free bodies,", sum(1 for v in outp.values() if "*" not in v), "configuration dependent")
+
+# debug-only belief population (configurations with debug assertions on)
+from sa.rules import beliefs as _beliefs
+refb = {}
+for cfg, prog in facts.load_many(list(_beliefs.CONFIGS)).items():
+    pop = _beliefs.population(prog)
+    refb[cfg] = {fk: dict(c) for fk, c in pop.items()}
+json.dump(refb, open(os.path.join(os.path.dirname(os.path.abspath(__file__)), "sa", "ref_beliefs.json"), "w"), indent=0, sort_keys=True)
+print({c: sum(sum(v.values()) for v in refb[c].values()) for c in refb}, "belief sites")
